@@ -68,21 +68,17 @@ impl<'a> Display<'a> {
         }
 
         let dot = if it.peek().is_some() {
-            true
+            // Digits of the whole part are cut off: that only loses
+            // something if one of them, or the fraction, is non-zero.
+            it.clone().any(|d| d != '0') || !rem.is_zero()
         } else {
             let remaining = self.spec.limit - used;
 
-            if remaining > 0 {
-                let mut it = emit(&mut rem, den);
-
-                for d in (&mut it).take(remaining) {
-                    fmt::Display::fmt(&d, f)?;
-                }
-
-                it.next().is_some()
-            } else {
-                false
+            for d in emit(&mut rem, den).take(remaining) {
+                fmt::Display::fmt(&d, f)?;
             }
+
+            !rem.is_zero()
         };
 
         if dot && self.spec.show_continuation {
